@@ -84,7 +84,54 @@ T = [
 ]
 
 
+# operator set C (wrong variable / swapped arguments / byte-family constants): its survivors are classified by this table first
+TC = [
+ ("parsebuffer.rs", 380, 540, "outside", "start/end of the location attached to an ERROR (C15's failure clause is about the cursor; error locations are nobody's subject)"),
+ ("prim_ascii.rs", 30, 40, "outside", "location attached to an AsciiChar error"),
+ ("prim_combinators.rs", 170, 178, "outside", "location attached to Not's error"),
+ ("common_data_structures.rs", 140, 144, "outside", "text of a predicate's error message"),
+ ("name_tree.rs", 119, 140, "equivalent", "dead code (NamesPredicate is never constructed)"),
+ ("number_tree.rs", 149, 170, "equivalent", "dead code (NumsPredicate is never constructed)"),
+ ("pdf_content_streams.rs", 260, 435, "outside", "arguments of error messages of the text extractor"),
+ ("pdf_file.rs", 59, 59, "gap", "SUCCESS location of HeaderP (end := start): C15 quantifies over every parser, the check covered pcore, pdf_prim and parse_pdf_obj only -> follow-up C15d extends the success clause to every ParsleyParser implementor"),
+ ("pdf_file.rs", 100, 125, "outside", "location attached to an error of XrefEntP"),
+ ("pdf_file.rs", 247, 247, "gap", "SUCCESS location of XrefSubSectP: see pdf_file.rs:59"),
+ ("pdf_file.rs", 334, 334, "outside", "XrefSectT::is_valid is not called"),
+ ("pdf_file.rs", 500, 505, "outside", "location attached to an error"),
+ ("pdf_filters.rs", 160, 160, "outside", "verification hook"),
+ ("pdf_filters.rs", 170, 262, "outside", "LZWDecode: never instantiated"),
+ ("pdf_filters.rs", 297, 310, "equivalent", "row_length and row_bytes hold the same value"),
+ ("pdf_filters.rs", 398, 398, "equivalent", "average(a, b) is symmetric"),
+ ("pdf_obj.rs", 440, 440, "outside", "location attached to an error"),
+ ("pdf_page_dom.rs", 620, 660, "outside", "font-descriptor flag bits"),
+ ("pdf_prim.rs", 70, 180, "outside", "location attached to an error of a token parser"),
+ ("pdf_prim.rs", 201, 265, "outside", "is_zero / is_positive: equivalent or unused"),
+ ("pdf_prim.rs", 310, 310, "outside", "location attached to an error"),
+ ("pdf_prim.rs", 424, 424, "equivalent", "x % 2 != 32 is always true: a '0' is appended to an even digit string too, and the lone trailing digit is then ignored by the pair loop"),
+ ("pdf_prim.rs", 541, 541, "outside", "location attached to an error"),
+ ("pdf_prim.rs", 720, 720, "gap", "`#hh` codes: the NUL test on the decoded byte replaced by a test of one nibble; only codes with a zero nibble (#0A, #20, #A0) distinguish it -> all 256 codes added to C15's family"),
+ ("pdf_prim.rs", 873, 873, "outside", "location attached to an error"),
+ ("pdf_streams.rs", 109, 109, "equivalent", "initial last_ofs is never compared"),
+ ("pdf_streams.rs", 520, 520, "outside", "location attached to an error"),
+ ("pdf_streams.rs", 582, 582, "gap", "SUCCESS location of a cross-reference-stream entry: see pdf_file.rs:59"),
+ ("pdf_streams.rs", 693, 693, "outside", "start recorded inside a decoded StreamContentT"),
+ ("pdf_traverse_xref.rs", 699, 699, "equivalent", "loop variable is unused"),
+ ("pdf_traverse_xref.rs", 1, 905, "outside", "arguments of log and exit messages (object numbers, offsets, counts printed in diagnostics)"),
+]
+
+
 def classify(r):
+    if r.get("_set") == "C":
+        f = r["file"].split("/")[-1]
+        best = None
+        for (sf, a, b, c, n) in TC:
+            if f == sf and a <= r["line"] <= b and (best is None or b - a < best[0]):
+                best = (b - a, c, n)
+        if best: return best[1], best[2]
+    return classify_ab(r)
+
+
+def classify_ab(r):
     f = r["file"].split("/")[-1]
     best = None
     for (sf, a, b, c, n) in T:
@@ -96,11 +143,15 @@ def classify(r):
 
 def main():
     rs = [json.loads(l) for l in open(os.path.join(ROOT, "mutation", "results.jsonl"))]
-    for nm in ("results_B.jsonl", "results_bin.jsonl"):
+    for nm in ("results_B.jsonl", "results_bin.jsonl", "results_C.jsonl"):
         pb = os.path.join(ROOT, "mutation", nm)
-        if os.path.exists(pb): rs += [json.loads(l) for l in open(pb)]
+        if os.path.exists(pb):
+            for l in open(pb):
+                r = json.loads(l)
+                if nm == "results_C.jsonl": r["_set"] = "C"
+                rs.append(r)
     rerun = {}
-    for nm in ("rerun.jsonl", "rerun_B.jsonl"):
+    for nm in ("rerun.jsonl", "rerun_B.jsonl", "rerun_C.jsonl"):
         p = os.path.join(ROOT, "mutation", nm)
         if os.path.exists(p):
             for l in open(p):
@@ -111,7 +162,7 @@ def main():
             r["_closed"] = True
     st = collections.Counter(r["status"].split(":")[0] for r in rs)
     out = ["# Mutation sweep (checklib/mutsweep.py) - summary", "",
-           "Single-token mutants, two operator sets (A: relational / equality / boolean / arithmetic operator swaps, literal n -> n+1, true <-> false, negated `if`, deleted statement; B: < <-> >, n -> n-1, one operand of && / || dropped, break <-> continue, min <-> max, return Some -> None, * / %, .. <-> ..=, is_some/is_ok/is_empty flipped) "
+           "Single-token mutants, two operator sets (A: relational / equality / boolean / arithmetic operator swaps, literal n -> n+1, true <-> false, negated `if`, deleted statement; B: < <-> >, n -> n-1, one operand of && / || dropped, break <-> continue, min <-> max, return Some -> None, * / %, .. <-> ..=, is_some/is_ok/is_empty flipped; C: an identifier replaced by another local of the same function, the two arguments of a call swapped, byte constants of one family exchanged) "
            "of the non-test part of the 25 source files the properties are anchored in (23 library files, sets A and B; the binaries pdf_printer.rs and rtps_parse.rs, set A); one mutant per (line, operator kind). "
            "A mutant that does not compile is `stillborn`; one that fails the crate's own 132 tests is `test-killed` (not the kind of change the checks are for); "
            "the others are run through the quick tier of every check mapped to the file (VERIF_REPO = private worktree).", "",
